@@ -136,6 +136,24 @@ pub fn ed_raw_tok(p: &EdwardsPoint) -> String {
     s
 }
 
+/// hex of the compressed point, with a marker appended when the internal representation is not a valid extended
+/// point (off the curve or X*Y != Z*T): for outputs that show a point only by its encoding
+pub fn ed_hex_checked(p: &EdwardsPoint) -> String {
+    let mut h = hex(p.compress().as_bytes());
+    if !verif::edwards_is_valid(p) {
+        h.push_str("!invalid-internal-representation");
+    }
+    h
+}
+
+pub fn rs_hex_checked(p: &RistrettoPoint) -> String {
+    let mut h = hex(p.compress().as_bytes());
+    if !verif::edwards_is_valid(&verif::ristretto_inner(p)) {
+        h.push_str("!invalid-internal-representation");
+    }
+    h
+}
+
 /// compressed + raw coords
 pub fn ed_out(p: &EdwardsPoint) -> Out {
     vec![hex(p.compress().as_bytes()), ed_raw_tok(p)]
